@@ -131,14 +131,23 @@ def _bsimp(x):
     return x
 
 
+TRACK_SUB = [False]      # rounding lint (C11): remember when a value is a difference (magnitude of its operands)
+SUB_EVENTS = []          # (value, operand magnitude) pairs handed to sqrt while tracking
+
+
+def _absz(e):
+    return z3.If(e >= 0, e, -e)
+
+
 class EV:
-    __slots__ = ('v', 'inf', 'nan')
+    __slots__ = ('v', 'inf', 'nan', 'sub')
     __array_ufunc__ = None
 
     def __init__(self, v, inf=False, nan=False):
         self.v = v
         self.inf = inf
         self.nan = nan
+        self.sub = None
 
     @staticmethod
     def of(x):
@@ -201,19 +210,26 @@ class EV:
     def __sub__(a, b):
         if not EV.can(b):
             return NotImplemented
-        return a + (-EV.of(b))
+        b = EV.of(b)
+        r = a + (-b)
+        if TRACK_SUB[0] and a.inf is False and b.inf is False:
+            r.sub = _absz(a.v) + _absz(b.v)
+        return r
 
     def __rsub__(a, b):
         if not EV.can(b):
             return NotImplemented
-        return EV.of(b) + (-a)
+        return EV.of(b).__sub__(a)
 
     def __mul__(a, b):
         if not EV.can(b):
             return NotImplemented
         b = EV.of(b)
         if a.inf is False and b.inf is False:
-            return EV(_simp(lin_mul(a.v, b.v)), False, Or(a.nan, b.nan))
+            r = EV(_simp(lin_mul(a.v, b.v)), False, Or(a.nan, b.nan))
+            if TRACK_SUB[0] and (a.sub is None) != (b.sub is None):      # a difference scaled by an ordinary value
+                r.sub = (a.sub * _absz(b.v)) if a.sub is not None else (b.sub * _absz(a.v))
+            return r
         nan = Or(a.nan, b.nan, And(a.inf, b.iszero()), And(b.inf, a.iszero()))
         inf = And(Not(nan), Or(a.inf, b.inf))
         sgn = Ite(_b(a.v > 0) == _b(b.v > 0), ONE, MONE)
@@ -228,7 +244,10 @@ class EV:
         bz = _bsimp(_b(And(Not(b.inf), b.v == 0)))
         az = _bsimp(_b(And(Not(a.inf), a.v == 0)))
         if bz is False and a.inf is False and b.inf is False:
-            return EV(_simp(a.v / b.v), False, Or(a.nan, b.nan))
+            r = EV(_simp(a.v / b.v), False, Or(a.nan, b.nan))
+            if TRACK_SUB[0] and a.sub is not None and b.sub is None:
+                r.sub = a.sub / _absz(b.v)
+            return r
         nan = Or(a.nan, b.nan, And(a.inf, b.inf), And(az, bz))
         inf = And(Not(nan), Or(a.inf, And(bz, Not(az))))
         # x/0: sign of x (zero is +0); inf/finite: sign product; finite/inf: 0
